@@ -86,11 +86,17 @@ def unifiedOK (univ : List Name) (orig : List NRanking) (uni : List RView) : Boo
     if missing.isEmpty then sameRankingN u r
     else u.length == r.length + 1 && sameRankingN (u.take r.length) r && sameBucket (u.getD r.length []) missing
 
-/-- projection keeps exactly the rankings meeting the kept set, relative order preserved -/
+/-- names up to the documented homogenisation (a derived dataset whose names are all integer-like holds ints) -/
+def normName (x : Name) : Name := if x.canBeInt then x.toIntName else x
+
+/-- projection keeps exactly the rankings meeting the kept set, relative order preserved (element names compared up
+    to the int / integer-like-string homogenisation the derived dataset applies) -/
 def projOK (orig : List NRanking) (keep : List Name) (proj : List NRanking) : Bool :=
-  let expect := (orig.map fun r => (r.map fun b => b.filter fun x => keep.contains x).filter fun b => !b.isEmpty).filter
+  let nk := keep.map normName
+  let expect := (orig.map fun r => (r.map fun b => (b.map normName).filter fun x => nk.contains x).filter fun b => !b.isEmpty).filter
     fun r => !r.isEmpty
-  proj.length == expect.length && (proj.zip expect).all fun p => sameRankingN p.1 p.2
+  let proj' := proj.map fun r => r.map fun b => b.map normName
+  proj'.length == expect.length && (proj'.zip expect).all fun p => sameRankingN p.1 p.2
 
 end Spec
 end Corankco
